@@ -83,7 +83,7 @@ func c19CheckPrefix(id string, p netip.Prefix, b []byte, ref *c19ref, j int, ipv
 func c19PrefixList(id string, ipv6 bool) {
 	N := c19N()
 	verifLoopBound(N)
-	verifNote("prefix lists: at most N entries per field (3 quick / 5 thorough); all bit lengths, address bits, path ids and field lengths symbolic")
+	verifNote("prefix lists: at most N entries per field (3 quick, 2 for IPv6 add-path / 5 thorough); all bit lengths, address bits, path ids and field lengths symbolic")
 	b := verifBuf("field", 0, 4096)
 	ref := c19Ref(b, ipv6, false, N)
 	verifAssume(verifOr(!ref.ok, ref.end == len(b))) // bound: at most N entries
@@ -106,6 +106,9 @@ func c19PrefixList(id string, ipv6 bool) {
 
 func c19AddPathList(id string, ipv6 bool) {
 	N := c19N()
+	if ipv6 && verifTier() == 0 {
+		N = 2 // (16-byte address comparisons make the v6 add-path queries the slowest)
+	}
 	verifLoopBound(N)
 	b := verifBuf("field", 0, 4096)
 	ref := c19Ref(b, ipv6, true, N)
